@@ -877,3 +877,182 @@ func readerStartsAfterConnection(c *core.Ctx) bool {
 	}
 	return false
 }
+
+// pollInstalledOnlyWhileClientIsThere (C11.17 = C01.25 = C09.22) — fix 452cd66.
+func pollInstalledOnlyWhileClientIsThere(c *core.Ctx, R string) {
+	c.Rule(R, "a poll is installed only while its client is there (store-then-check): in onPollRequest, after the close listener is registered on the request context, the context's Err() is tested; on the cancelled edge the listener's work is done (onClose: not writable, transport error) and the function returns before SetWritable(true) / Emit(ready) — the context emits close once, and a listener registered after that would never run: the dead poll would be the session's pending poll (the next poll refused as an overlap, or the next batch written into a dead response and reported as sent)")
+	u := c.Fn(R, polOnPoll)
+	if u == nil {
+		return
+	}
+	g := u.Graph()
+	var reg *core.Call
+	for _, e := range events(c, u) {
+		if (e.Kind == "once" || e.Kind == "on") && e.Event == "close" && e.Class == "httpctx" {
+			reg = e.Call
+		}
+	}
+	gone := func(x *core.Unit, br core.Branch) int { // ctx.Context().Err() != nil
+		cmp, ok := x.BranchCmp(br)
+		if !ok || cmp.Y == nil || !core.IsNil(x.Info(), cmp.Y) {
+			return 0
+		}
+		ce, _ := x.AsCall(cmp.X)
+		if ce == nil || calleeNameOf(ce) != "Err" {
+			return 0
+		}
+		switch cmp.Op {
+		case token.NEQ:
+			return 1
+		case token.EQL:
+			return -1
+		}
+		return 0
+	}
+	ok := reg != nil
+	if ok {
+		after := gAfter(gone, reg.Pos())
+		handled, returned := false, false
+		for _, cl := range u.Calls() {
+			if cl.Callee == nil && cl.Name == "onClose" && g.GuardedBy(cl.Loc, after) {
+				handled = true
+			}
+		}
+		for _, r := range returnsIn(u) {
+			if g.GuardedBy(r.Loc, after) {
+				returned = true
+			}
+		}
+		live := true
+		for _, cl := range u.Calls() {
+			if mNameBool("SetWritable", 0, true)(u, cl) && !g.GuardedBy(cl.Loc, gAfter(gNot(gone), reg.Pos())) {
+				live = false
+			}
+		}
+		ok = handled && returned && live
+	}
+	c.Check(R, polOnPoll+"/request-context-re-checked-after-the-close-listener", u.Pos(), ok, "Once(close) ≺ Err() test; cancelled edge → onClose() and return; SetWritable(true) only on the live edge")
+}
+
+// limitFailureReported (C15.13 = C10.11) — fix 474b14a: three ways the reader
+// reported an over-limit or failed stream wrongly.
+func limitFailureReported(c *core.Ctx, R string) {
+	c.Rule(R, "a limit violation is reported as such and closes the session, and a failure is not forgotten: in advanceFrame (a) the error edge of setReadRemaining for the 64-bit length (a length with the top bit set) calls CloseWithError(CloseMessageTooBig) before it returns, (b) on the over-limit edge the result of CloseWithError decides nothing — the return there is ErrReadLimit on every path; (c) in messageReader.Read the stale-reader return hands back the connection's sticky error when it has one other than io.EOF, and io.EOF only otherwise")
+	if u := c.Fn(R, wtAdvance); u != nil {
+		g := u.Graph()
+		info := u.Info()
+		// (a)
+		okA := false
+		for _, cl := range u.Calls() {
+			if cl.Name != "setReadRemaining" {
+				continue
+			}
+			if ce, isC := ast.Unparen(cl.Arg(0)).(*ast.CallExpr); !isC || !strings.Contains(core.ExprString(ce), "Uint64") {
+				continue
+			}
+			failed := func(x *core.Unit, br core.Branch) int {
+				cmp, ok := x.BranchCmp(br)
+				if !ok || cmp.Y == nil || !core.IsNil(x.Info(), cmp.Y) {
+					return 0
+				}
+				if d, k := x.SingleDef(cmp.X); !k || ast.Unparen(d) != ast.Expr(cl.Expr) {
+					return 0
+				}
+				switch cmp.Op {
+				case token.NEQ:
+					return 1
+				case token.EQL:
+					return -1
+				}
+				return 0
+			}
+			var closes []core.Loc
+			for _, cc := range u.Calls() {
+				if cc.Name == "CloseWithError" && g.GuardedBy(cc.Loc, failed) && strings.HasSuffix(selPath(cc.Arg(0)), "CloseMessageTooBig") {
+					closes = append(closes, cc.Loc)
+				}
+			}
+			okA = len(closes) > 0
+			for _, r := range returnsIn(u) {
+				if g.GuardedBy(r.Loc, failed) && !g.DominatesAny(closes, r.Loc) {
+					okA = false
+				}
+			}
+		}
+		c.Check(R, wtAdvance+"/top-bit-length→CloseWithError(CloseMessageTooBig)≺return", u.Pos(), okA, "the 64-bit length that setReadRemaining refuses closes the session like any other over-limit length")
+		// (b)
+		okB := true
+		nB := 0
+		for _, cc := range u.Calls() {
+			if cc.Name != "CloseWithError" || !strings.HasSuffix(selPath(cc.Arg(0)), "CloseMessageTooBig") {
+				continue
+			}
+			nB++
+			// no branch tests its result
+			for _, f := range g.Facts() {
+				cmp, ok := u.BranchCmp(f.Br)
+				if !ok {
+					continue
+				}
+				if d, k := u.SingleDef(cmp.X); k && ast.Unparen(d) == ast.Expr(cc.Expr) {
+					okB = false
+				}
+			}
+			// what follows it returns the limit error (or the error that led here)
+			for _, r := range returnsIn(u) {
+				if g.Dominates(cc.Loc, r.Loc) && len(r.Stmt.Results) == 2 {
+					if !isPkgVar(info, r.Stmt.Results[1], "ErrReadLimit") && !anyErr(u, r.Stmt.Results[1]) {
+						okB = false
+					}
+					if core.IsNil(info, r.Stmt.Results[1]) {
+						okB = false
+					}
+				}
+			}
+		}
+		c.Check(R, wtAdvance+"/close-result-decides-nothing", u.Pos(), okB && nB >= 2, keyf("%d CloseWithError(CloseMessageTooBig) site(s); no branch on their result, a non-nil error returned after each: %v", nB, okB))
+	}
+	if u := c.Fn(R, wtMRRead); u != nil {
+		g := u.Graph()
+		info := u.Info()
+		stale := func(x *core.Unit, br core.Branch) int { // c.messageReader != r
+			cmp, ok := x.BranchCmp(br)
+			if !ok || fieldOf(x.Info(), cmp.X) != "Conn.messageReader" || cmp.Y == nil {
+				return 0
+			}
+			switch cmp.Op {
+			case token.NEQ:
+				return 1
+			case token.EQL:
+				return -1
+			}
+			return 0
+		}
+		failed := func(x *core.Unit, br core.Branch) int { // c.readErr != nil
+			cmp, ok := x.BranchCmp(br)
+			if !ok || fieldOf(x.Info(), cmp.X) != "Conn.readErr" || cmp.Y == nil || !core.IsNil(x.Info(), cmp.Y) {
+				return 0
+			}
+			switch cmp.Op {
+			case token.NEQ:
+				return 1
+			case token.EQL:
+				return -1
+			}
+			return 0
+		}
+		sticky, eof := false, true
+		for _, r := range returnsIn(u) {
+			if !g.GuardedBy(r.Loc, stale) || len(r.Stmt.Results) != 2 {
+				continue
+			}
+			if fieldOf(info, r.Stmt.Results[1]) == "Conn.readErr" && g.GuardedBy(r.Loc, failed) {
+				sticky = true
+			}
+			if strings.HasSuffix(selPath(r.Stmt.Results[1]), "io.EOF") && g.GuardedBy(r.Loc, failed) {
+				eof = false // a clean end reported although the connection has failed
+			}
+		}
+		c.Check(R, wtMRRead+"/stale-reader-reports-the-sticky-failure", u.Pos(), sticky && eof, keyf("returns c.readErr on the failed edge: %v; io.EOF only off it: %v", sticky, eof))
+	}
+}
